@@ -183,9 +183,67 @@ fn report_failure(args: &Args, rep: &mut Report, ast: &OpeningHoursExpression, h
     rep.violation("comments", format!("{text:?} [{}]: {what}", hol.to_string()), json!({"expr": text, "holidays": hol.to_string(), "days": days.iter().map(|d| d.to_string()).collect::<Vec<_>>(), "starts": starts.iter().map(|d| d.to_string()).collect::<Vec<_>>()}), known);
 }
 
+/// Size family: 1..48 overlapping additional rules, each with its own comment (and variants with
+/// repeated texts, prefix comments, mixed kinds): thresholds on the number of comments that
+/// accumulate on one period cannot hide from it.
+fn many_comments(args: &Args, rep: &mut Report, st: &mut Stats) {
+    let day = NaiveDate::from_ymd_opt(2024, 6, 10).unwrap();
+    let mut idx = 0u64;
+    for k in 1..=48usize {
+        for variant in 0..6 {
+            idx += 1;
+            if (idx - 1) % args.of.max(1) != args.worker {
+                continue;
+            }
+            let rules: Vec<String> = (1..=k)
+                .map(|i| {
+                    let (a, b) = (8 + i % 3, 17 + i % 5);
+                    match variant {
+                        0 => format!("{a:02}:00-{b}:00 open \"c{i:02}\""),
+                        1 => format!("{a:02}:00-{b}:00 unknown \"c{:02}\"", k - i),
+                        // texts repeated across rules (every third rule reuses one)
+                        2 => format!("{a:02}:00-{b}:00 open \"c{:02}\"", i % ((k * 2 / 3).max(1))),
+                        // a prefix comment and a modifier comment on each rule
+                        3 => format!("\"p{i:02}\":{a:02}:00-{b}:00 open \"c{i:02}\""),
+                        // mixed kinds: the comments of the kind in effect only
+                        4 => format!("{a:02}:00-{b}:00 {} \"c{i:02}\"", if i % 2 == 0 { "open" } else { "unknown" }),
+                        _ => format!("Mo {a:02}:00-{b}:00 open \"{}\"", "x".repeat(i)),
+                    }
+                })
+                .collect();
+            let text = rules.join(", ");
+            let Ok(ast) = lib_parse(&text) else {
+                rep.count("many_comments_skipped_parser_rejects");
+                continue;
+            };
+            let Some(oh) = build(&text, &HolSpec::None) else { continue };
+            rep.evaluations += 1;
+            rep.begin(&text);
+            let days = [day, day.succ_opt().unwrap()];
+            let starts = [day.and_hms_opt(0, 0, 0).unwrap(), day.and_hms_opt(12, 30, 0).unwrap()];
+            match check_case(&ast, &oh, &HolSpec::None, &days, &starts, st) {
+                Ok(()) => {
+                    rep.count("many_comments_expressions_checked");
+                    rep.max("max_comments_on_one_range", oh.schedule_at(day).into_iter().map(|t| t.comments.len()).max().unwrap_or(0) as u64);
+                }
+                Err(msg) => {
+                    rep.violation("comments", format!("{text:?} [none]: {msg}"), json!({"expr": text, "holidays": "none", "days": days.iter().map(|d| d.to_string()).collect::<Vec<_>>(), "starts": starts.iter().map(|d| d.to_string()).collect::<Vec<_>>()}), None);
+                    if rep.full() {
+                        return;
+                    }
+                }
+            }
+        }
+    }
+}
+
 pub fn run(args: &Args, rep: &mut Report) {
     let n = args.cases(400_000, 3_000_000);
     let mut st = Stats::default();
+    many_comments(args, rep, &mut st);
+    if rep.full() {
+        return;
+    }
     for k in 0..n {
         let mut cfg = GenCfg::standard(args.thorough()).rotated(k);
         cfg.comments_pct = 65;
